@@ -117,6 +117,18 @@ package pubsub
 //@   ensures fast-path: result == (len(lastret((*validation).getValidators)) == 0 && old(msg.Message.Signature) == nil)
 //@   ensures validators: calls((*validation).getValidators) == old(calls((*validation).getValidators)) + 1 && lastarg((*validation).getValidators, 1) == msg
 
+// getValidators: the validator set handed to a message is the default validators followed by its
+// own topic's validator (if registered), in a slice the caller owns: messages queued for
+// asynchronous validation keep it, so it must not share storage with v.defaultVals or with the
+// set of another message, and computing it must not disturb any existing storage.
+//@ func (*validation).getValidators
+//@   property C04
+//@   requires msg: msg != nil
+//@   ensures defaults-first: len(result) == len(v.defaultVals) + ite(topicOf(msg) in v.topicVals, 1, 0) &&
+//@        (forall i int :: 0 <= i && i < len(v.defaultVals) ==> result[i] == v.defaultVals[i])
+//@   ensures own-topic-validator: topicOf(msg) in v.topicVals ==> result[len(v.defaultVals)] == v.topicVals[topicOf(msg)]
+//@   ensures private-storage: len(result) > 0 ==> fresh(arr(result))
+
 // ValidateLocal: exactly one PUBLISH_MESSAGE trace event; policy check, then synchronous validation.
 //@ func (*validation).ValidateLocal
 //@   property C04 C19
